@@ -257,14 +257,14 @@ func c15Child(cfg Cfg) int {
 				last, lastChange = cur, time.Now()
 				continue
 			}
-			if outstanding.Load() > 0 && time.Since(lastChange) > 30*time.Second {
+			if outstanding.Load() > 0 && time.Since(lastChange) > 10*time.Second {
 				buf := make([]byte, 1<<20)
 				n := runtime.Stack(buf, true)
 				dump := string(buf[:n])
 				if strings.Contains(dump, "locker/syncmap.(*Service).Lock") || strings.Contains(dump, "locker/syncmap.(*Service).PreLock") {
-					fmt.Println("CHILD-VIOLATION no progress for 30s with requests blocked in lock acquisition")
+					fmt.Println("CHILD-VIOLATION no progress for 10s with requests blocked in lock acquisition")
 				} else {
-					fmt.Println("CHILD-INCONCLUSIVE no progress for 30s but no request is blocked in lock acquisition")
+					fmt.Println("CHILD-INCONCLUSIVE no progress for 10s but no request is blocked in lock acquisition")
 				}
 				fmt.Println(dump)
 				os.Exit(4)
